@@ -13,7 +13,7 @@ from .repo import RepoIndex
 from .engine import Engine
 from . import solve
 
-CONTRACT_MODULES = ["kernel", "notification"]
+CONTRACT_MODULES = ["kernel", "notification", "locks"]
 
 
 def load_registry(mods=None):
